@@ -11,6 +11,7 @@ import (
 	"runtime"
 	"strconv"
 	"strings"
+	"time"
 
 	"verifharness/core"
 	_ "verifharness/props"
@@ -45,6 +46,7 @@ func main() {
 		out := fs.String("out", "", "")
 		only := fs.String("only", "", "")
 		sub := fs.Int("subsample", 1, "")
+		caseLimit := fs.Int("case-limit-s", 0, "per-case watchdog in seconds (0 = default)")
 		fs.Parse(os.Args[3:])
 		f, ok := core.Props[prop]
 		if !ok {
@@ -68,6 +70,7 @@ func main() {
 		if *out != "" {
 			c.OpenWAL(*out + ".wal")
 		}
+		core.StartWatchdog(time.Duration(*caseLimit) * time.Second)
 		c.Info("go_version", runtime.Version())
 		c.Info("gomaxprocs", strconv.Itoa(runtime.GOMAXPROCS(0)))
 		f(c)
